@@ -10,6 +10,7 @@ import (
 	"io"
 	"net"
 	"os"
+	"strings"
 	"sync"
 	"syscall"
 	"time"
@@ -39,8 +40,8 @@ type simHalf struct {
 	latency   time.Duration // per-chunk delivery delay
 	fragment  int           // >0: deliver in pieces of at most this many bytes
 	fragDelay time.Duration
-	blackhole bool  // silently discard written bytes
-	stalled   bool  // writer blocks
+	blackhole bool // silently discard written bytes
+	stalled   bool // writer blocks
 	stallCh   chan struct{}
 	cutAt     int64 // >0: reset the connection when the total written reaches this offset
 	total     int64 // bytes written so far
@@ -362,12 +363,15 @@ func (h *simHalf) setBlackhole(on bool) {
 
 // simNet owns all connections of a run.
 type simNet struct {
-	mu        sync.Mutex
-	stats     netStats
-	conns     []*simConn // server-side ends handed to gobgp
-	listeners map[string]*simListener
-	nextPort  int
-	serverIP  net.IP
+	mu            sync.Mutex
+	stats         netStats
+	conns         []*simConn // server-side ends handed to gobgp
+	listeners     map[string]*simListener
+	nextPort      int
+	serverIP      net.IP
+	udps          []*simUDP // datagram sockets handed to gobgp
+	udpListenHook func(u *simUDP)
+	udpDialHook   func(u *simUDP)
 }
 
 type simListener struct {
@@ -481,6 +485,9 @@ func (n *simNet) setListenMode(addr, mode string, delay time.Duration) {
 
 // dial serves net.SimDialHook.
 func (n *simNet) dial(ctx context.Context, network, address string, laddr net.Addr) (net.Conn, error) {
+	if strings.HasPrefix(network, "udp") {
+		return n.dialUDP(network, address, laddr)
+	}
 	n.mu.Lock()
 	l := n.listeners[address]
 	var mode string
@@ -547,3 +554,190 @@ func (n *simNet) dial(ctx context.Context, network, address string, laddr net.Ad
 }
 
 var errNoListener = errors.New("no listener")
+
+// ---------------------------------------------------------------- datagram sockets (BFD)
+
+type udpDgram struct {
+	b    []byte
+	from *net.UDPAddr
+}
+
+// simUDP is a datagram socket handed to gobgp (wrapped in a *net.UDPConn by the net overlay).
+// A listening socket receives what the harness delivers with deliver(); a connected (dialled)
+// socket hands what gobgp writes to onWrite.
+type simUDP struct {
+	net     *simNet
+	mu      sync.Mutex
+	q       []udpDgram
+	wake    chan struct{}
+	closeCh chan struct{}
+	closed  bool
+	la, ra  *net.UDPAddr
+	listen  bool
+	onWrite func(u *simUDP, b []byte)
+	writes  int
+}
+
+func (u *simUDP) isClosed() bool {
+	u.mu.Lock()
+	defer u.mu.Unlock()
+	return u.closed
+}
+
+func (u *simUDP) deliver(b []byte, from *net.UDPAddr) bool {
+	u.mu.Lock()
+	if u.closed || len(u.q) >= 256 {
+		u.mu.Unlock()
+		return false
+	}
+	u.q = append(u.q, udpDgram{append([]byte(nil), b...), from})
+	u.mu.Unlock()
+	select {
+	case u.wake <- struct{}{}:
+	default:
+	}
+	return true
+}
+
+func (u *simUDP) ReadFromUDP(b []byte) (int, *net.UDPAddr, error) {
+	for {
+		u.mu.Lock()
+		if u.closed {
+			u.mu.Unlock()
+			return 0, nil, &net.OpError{Op: "read", Net: "udp", Err: net.ErrClosed}
+		}
+		if len(u.q) > 0 {
+			d := u.q[0]
+			u.q = u.q[1:]
+			u.mu.Unlock()
+			n := copy(b, d.b)
+			return n, d.from, nil
+		}
+		u.mu.Unlock()
+		select {
+		case <-u.wake:
+		case <-u.closeCh:
+		}
+	}
+}
+
+func (u *simUDP) Read(b []byte) (int, error) {
+	n, _, err := u.ReadFromUDP(b)
+	return n, err
+}
+
+func (u *simUDP) Write(b []byte) (int, error) {
+	u.mu.Lock()
+	if u.closed {
+		u.mu.Unlock()
+		return 0, &net.OpError{Op: "write", Net: "udp", Err: net.ErrClosed}
+	}
+	u.writes++
+	f := u.onWrite
+	u.mu.Unlock()
+	if f != nil {
+		f(u, append([]byte(nil), b...))
+	}
+	return len(b), nil
+}
+
+func (u *simUDP) Close() error {
+	u.mu.Lock()
+	if u.closed {
+		u.mu.Unlock()
+		return &net.OpError{Op: "close", Net: "udp", Err: net.ErrClosed}
+	}
+	u.closed = true
+	close(u.closeCh)
+	u.mu.Unlock()
+	return nil
+}
+
+func (u *simUDP) LocalAddr() net.Addr {
+	return u.la
+}
+
+func (u *simUDP) RemoteAddr() net.Addr {
+	if u.ra == nil {
+		return nil
+	}
+	return u.ra
+}
+func (u *simUDP) SetDeadline(t time.Time) error      { return nil }
+func (u *simUDP) SetReadDeadline(t time.Time) error  { return nil }
+func (u *simUDP) SetWriteDeadline(t time.Time) error { return nil }
+
+func (n *simNet) newUDP(la, ra *net.UDPAddr, listen bool) *simUDP {
+	u := &simUDP{net: n, wake: make(chan struct{}, 1), closeCh: make(chan struct{}), la: la, ra: ra, listen: listen}
+	n.mu.Lock()
+	n.udps = append(n.udps, u)
+	n.mu.Unlock()
+	return u
+}
+
+// openUDP returns the datagram sockets gobgp has not closed.
+func (n *simNet) openUDP() []*simUDP {
+	n.mu.Lock()
+	defer n.mu.Unlock()
+	var l []*simUDP
+	for _, u := range n.udps {
+		if !u.isClosed() {
+			l = append(l, u)
+		}
+	}
+	return l
+}
+
+// listenPacket serves net.SimListenPacketHook.
+func (n *simNet) listenPacket(ctx context.Context, network, address string) (net.PacketConn, error) {
+	_, portStr, err := net.SplitHostPort(address)
+	if err != nil {
+		return nil, &net.OpError{Op: "listen", Net: network, Err: err}
+	}
+	var port int
+	fmt.Sscanf(portStr, "%d", &port)
+	n.mu.Lock()
+	for _, u := range n.udps {
+		if u.listen && u.la.Port == port && !u.isClosed() {
+			n.mu.Unlock()
+			return nil, &net.OpError{Op: "listen", Net: network, Err: syscall.EADDRINUSE}
+		}
+	}
+	h := n.udpListenHook
+	n.mu.Unlock()
+	u := n.newUDP(&net.UDPAddr{IP: n.serverIP, Port: port}, nil, true)
+	if h != nil {
+		h(u)
+	}
+	return net.NewSimUDPConn(u), nil
+}
+
+// dialUDP is the datagram branch of dial.
+func (n *simNet) dialUDP(network, address string, laddr net.Addr) (net.Conn, error) {
+	host, portStr, err := net.SplitHostPort(address)
+	if err != nil {
+		return nil, &net.OpError{Op: "dial", Net: network, Err: err}
+	}
+	var rport int
+	fmt.Sscanf(portStr, "%d", &rport)
+	rip := net.ParseIP(host)
+	if v4 := rip.To4(); v4 != nil {
+		rip = v4
+	}
+	lport := 0
+	if ua, ok := laddr.(*net.UDPAddr); ok && ua != nil {
+		lport = ua.Port
+	}
+	lip := n.serverIP
+	if rip.To4() == nil {
+		lip = net.ParseIP("2001:db8::1")
+	}
+	n.mu.Lock()
+	h := n.udpDialHook
+	n.mu.Unlock()
+	u := n.newUDP(&net.UDPAddr{IP: lip, Port: lport}, &net.UDPAddr{IP: rip, Port: rport}, false)
+	if h != nil {
+		h(u)
+	}
+	return net.NewSimUDPConn(u), nil
+}
